@@ -868,8 +868,9 @@ func (w *world) seq(out *c.Out, seq int, r *c.Rng) {
 	}
 }
 
-// F5 witness (DESIGN 7.3): conversion factor 10^6, price 1.000000000000000001, a deposit worth exactly 1.0 of
-// borrowing power, two borrows of 500000: both accepted, an immediate liquidation succeeds.
+// Former F5 witness (fixed by 68803c96d), replayed on every run: conversion factor 10^6, price 1.000000000000000001, a
+// deposit worth exactly 1.0 of borrowing power, two borrows of 500000: before the fix both were accepted and an
+// immediate liquidation succeeded.
 func (w *world) scenarioF5(out *c.Out, r *c.Rng) {
 	s := w.newSeq(out, 0, r)
 	w.fund(s.ctx, c.NewRng(1))
@@ -885,12 +886,22 @@ func (w *world) scenarioF5(out *c.Out, r *c.Rng) {
 	s.deposit(1, []*big.Int{new(big.Int).Mul(pow10(6), bi(1000)), bi(0), bi(0)}) // lender of dena
 	s.deposit(0, []*big.Int{bi(0), new(big.Int).Mul(pow10(8), bi(2)), bi(0)})    // 2 denb at 1.0, LTV 0.5: borrowing power 1.0
 	s.borrow(0, one(0, bi(500000)))
-	s.borrow(0, one(0, bi(500000)))
-	s.liquidate(2, 0)
+	// since fix 68803c96d the second borrow must be refused (hard/11) and the liquidation attempt must fail; were it
+	// accepted again, the liquidation probe after it makes the driver report PREDFAIL C08_borrow_within_ltv
+	if s.borrow(0, one(0, bi(500000))) == kapp.OK {
+		out.Note("scenario:f5:second-borrow-accepted")
+	} else {
+		out.Note("scenario:f5:second-borrow-refused")
+	}
+	if s.liquidate(2, 0) == kapp.OK {
+		out.Note("scenario:f5:liquidated")
+	}
 	out.Note("scenario:f5")
 }
 
-// F4 attempt (DESIGN 7.3): make reserves exceed cash + borrows of a denom through real operations:
+// Former F4 witness (fixed by 485ea145c), replayed on every run; the supply index must now stay put in the blocks after
+// the liquidation (a decrease makes the driver report PREDFAIL C08_supply_index_monotone).
+// It makes reserves exceed cash + borrows of a denom through real operations:
 // a small and a large borrower take all the cash of dena, a year of interest builds reserves, the collateral price
 // falls, the large borrower is liquidated (its debt leaves the borrowed total, the auction has not paid yet).
 func (w *world) scenarioF4(out *c.Out, r *c.Rng) {
@@ -923,8 +934,9 @@ func (w *world) scenarioF4(out *c.Out, r *c.Rng) {
 	out.Note("scenario:f4")
 }
 
-// Division by zero in the begin blocker (findings/C08-accrue-div-zero.md): make cash + borrows = reserves with
-// borrows > 0.  A loan accrues interest (reserves r > 0) and is repaid; every supplier withdraws, leaving exactly the
+// Former division by zero in the begin blocker (findings/C08-accrue-div-zero.md, fixed by 9da123695), replayed on every
+// run: the last begin blocker must not panic (a panic is reported go-side and as PREDFAIL C08_accrue_no_panic).
+// The state cash + borrows = reserves with borrows > 0 is still reachable (the IsAnyGT quirk was not changed).  A loan accrues interest (reserves r > 0) and is repaid; every supplier withdraws, leaving exactly the
 // reserves in the module account; ValidateBorrow's "reserves are not borrowable" check is skipped when the available
 // amount is exactly zero (Coins.IsAnyGT ignores zero amounts), so a new borrow of x <= r is paid out of the reserves;
 // then cash + borrows - reserves = 0 and CalculateUtilizationRatio divides by it in the next block.
@@ -956,7 +968,8 @@ func (w *world) scenarioDiv0(out *c.Out, r *c.Rng) {
 		}
 		s.deposit(2, one(1, new(big.Int).Mul(e8, bi(100)))) // a newcomer's collateral
 		s.borrow(2, one(0, o.reserves[0]))                  // borrows the reserves (available = 0 is not checked)
-		s.beginBlock(6)                                     // cash + borrows - reserves = 0: begin blocker panics
+		s.beginBlock(6)                                     // cash + borrows - reserves = 0: used to panic
+		s.beginBlock(86400)
 		out.Note("scenario:div0:reached")
 		return
 	}
